@@ -63,7 +63,8 @@ func template(t *rapid.T, label string, st *tstats) string {
 			b.WriteString("$${" + v + "}")
 			st.escapes++
 		case k == 36:
-			b.WriteString("$$")
+			// escapes with nothing after them (they may end the string)
+			b.WriteString(rapid.SampledFrom([]string{"$$", "\\$", "5\\$", "$$$"}).Draw(t, "bareesc"))
 			st.escapes++
 		case k == 37:
 			b.WriteString("${" + v + ":-$A}")
